@@ -37,11 +37,24 @@ let lst s = if s = "-" then [] else List.map dec (String.split_on_char '/' s)
 (* ---- spec ---- *)
 type tcfg = { acts : string; ign : char; exact : bool; pos : string list; skip : string list }
 
-let opts_of = function
-  | "-" -> None
-  | "t" -> Some { o_ignore = Some true }
-  | "f" -> Some { o_ignore = Some false }
-  | _ -> Some { o_ignore = None }
+(* values of an argument list according to the container kind letter *)
+let values_of rk vals =
+  match rk with
+  | 'i' | 'r' | 'g' | 'u' -> List.map (fun v -> VInt (z_of_string v)) vals
+  | 'd' -> List.map (fun v -> VDbg (z_of_string v)) vals
+  | _ -> List.map (fun v -> VStr (st v)) vals
+
+(* opts token: - | n | t | f, optionally followed by a sample count *)
+let opts_of (s : string) =
+  if s = "-" then None else
+    let sc = if String.length s > 1 then Some (n_of_string (String.sub s 1 (String.length s - 1))) else None in
+    Some { o_ignore = (match s.[0] with 't' -> Some true | 'f' -> Some false | _ -> None); o_sample_count = sc }
+
+let opts_letter = function
+  | None -> "-"
+  | Some o ->
+    (match o.o_ignore with None -> "n" | Some true -> "t" | Some false -> "f")
+    ^ (match o.o_sample_count with None -> "" | Some n -> string_of_n n)
 
 let meta_of f =
   { m_display = sdec (List.nth f 4); m_raw = sdec (List.nth f 3); m_modpath = sdec (List.nth f 2);
@@ -50,14 +63,53 @@ let meta_of f =
 let runner_of owner rk vals =
   match rk.[0] with
   | 'p' -> RPlain
-  | 'i' | 'r' | 'g' | 'u' -> RArgs (owner, List.map (fun v -> VInt (z_of_string v)) (lst vals))
-  | 'd' -> RArgs (owner, List.map (fun v -> VDbg (z_of_string v)) (lst vals))
-  | _ -> RArgs (owner, List.map (fun v -> VStr (st v)) (lst vals))
+  | k -> RArgs (owner, values_of k (lst vals))
 
 let split_first c s =
   match String.index_opt s c with
   | Some i -> (String.sub s 0 i, String.sub s (i + 1) (String.length s - i - 1))
   | None -> (s, "")
+
+
+(* ---- abstract programs (items P / F / M / N / E): parsed into Model.pitem and expanded by the model ---- *)
+let parse_program (toks : string list) : string * pitem list =
+  let crate = ref "" in
+  let rec items (toks : string list) (acc : pitem list) : pitem list * string list =
+    match toks with
+    | [] -> (List.rev acc, [])
+    | tok :: rest ->
+      let f = String.split_on_char ',' tok in
+      (match List.hd f with
+       | "E" -> (List.rev acc, rest)
+       | "F" ->
+         let nth = List.nth f in
+         let rk = (nth 6).[0] in
+         let types = match nth 8 with
+           | "-" -> None | "@" -> Some []
+           | t -> Some (List.map (fun x -> sdec (snd (split_first ':' x))) (String.split_on_char '/' t)) in
+         let consts = match nth 9 with
+           | "-" -> None
+           | "L" -> Some (CLit (List.map st (lst (nth 11))))
+           | _ -> Some (CExt (List.map st (lst (nth 11)))) in
+         let b = { bd_raw = sdec (nth 1); bd_name = (if nth 2 = "-" then None else Some (sdec (nth 2)));
+                   bd_line = n_of_string (nth 3); bd_col = n_of_string (nth 4); bd_opts = opts_of (nth 5);
+                   bd_args = (if rk = 'p' then None else Some (values_of rk (lst (nth 7))));
+                   bd_types = types; bd_consts = consts } in
+         items rest (PBench b :: acc)
+       | "M" ->
+         let nth = List.nth f in
+         let g = if nth 2 = "-" then None else
+             Some { gd_name = (if nth 3 = "-" then None else Some (sdec (nth 3)));
+                    gd_line = n_of_string (nth 4); gd_col = n_of_string (nth 5); gd_opts = opts_of (nth 6) } in
+         let (sub, rest') = items rest [] in
+         items rest' (PMod (sdec (nth 1), g, sub) :: acc)
+       | "N" ->
+         let (sub, rest') = items rest [] in
+         items rest' (PFn sub :: acc)
+       | "P" -> crate := dec (List.nth f 1); items rest acc
+       | _ -> items rest acc) in
+  let (its, _) = items toks [] in
+  (!crate, its)
 
 let parse_case (line : string) =
   let cfg = ref None and benches = ref [] and groups = ref [] in
@@ -92,15 +144,24 @@ let parse_case (line : string) =
                   | _ -> failwith "generic entry") (String.split_on_char ';' row))
               (String.split_on_char '/' rows)) in
         groups := { g_id = id; g_meta = meta_of f; g_generic = generic } :: !groups
+      | "X" | "P" | "F" | "M" | "N" | "E" -> ()
       | x -> failwith ("bad item " ^ x)
     end) (String.split_on_char ' ' line);
+  let toks = String.split_on_char ' ' line in
+  let (benches, groups) =
+    if List.exists (fun t -> String.length t > 1 && t.[0] = 'P' && t.[1] = ',') toks then begin
+      let (crate, its) = parse_program toks in
+      match expand (st crate) its with
+      | Ok (b, g) -> (b, g)
+      | Panic p -> failwith ("expand: compile-time panic " ^ string_of_panic p)
+    end else (List.rev !benches, List.rev !groups) in
   match !cfg with
-  | Some c -> (c, List.rev !benches, List.rev !groups)
+  | Some c -> (c, benches, groups)
   | None -> failwith "no cfg"
 
 let mk_cfg (c : tcfg) (pos : string list) (exact : bool) : cfg =
   { c_run_ignored = (match c.ign with 'o' -> RIOnly | 'y' -> RIYes | _ -> RINo);
-    c_opts = { o_ignore = None };
+    c_opts = { o_ignore = None; o_sample_count = None };
     c_filter = is_match exact (List.map st pos) (List.map st c.skip) }
 
 let ident (t : tree list) = t
@@ -138,23 +199,52 @@ let canon_tree ((acts, p) : trace) (pair_calls : bool) (made : string) : string 
 let canon_terse ((acts, p) : trace) : string =
   String.concat ";" (List.map (fun l -> enc (ts l)) (lines acts)) ^ "!" ^ status p
 
-let made_of benches groups =
-  let owners = List.sort compare (List.map int_of_n (args_evaluations (all_entries benches groups))) in
+(* [real]: in generated crates an empty argument list is written as the literal `[]` (the macro's special
+   case), which cannot carry the evaluation counter: those owners are not reported by the crate. *)
+let made_of ?(real = false) benches groups =
+  let es = all_entries benches groups in
+  let empty_owner o = List.exists (fun e -> match entry_runner e with RArgs (o', []) -> o' = o | _ -> false) es in
+  let owners = List.sort compare (List.map int_of_n (List.filter (fun o -> not (real && empty_owner o)) (args_evaluations es))) in
   String.concat ";" (List.map (fun o -> Printf.sprintf "M%dx1" o) owners)
 
 let strip_suffix suf s =
   let n = String.length s and m = String.length suf in
   if n >= m && String.sub s (n - m) m = suf then Some (String.sub s 0 (n - m)) else None
 
+let is_real (line : string) =
+  List.exists (fun t -> String.length t > 1 && t.[0] = 'X' && t.[1] = ',') (String.split_on_char ' ' line)
+
+let meta_s (m : meta) =
+  String.concat "," [enc (ts m.m_modpath); enc (ts m.m_raw); enc (ts m.m_display); string_of_n m.m_line; string_of_n m.m_col;
+                     opts_letter m.m_opts]
+let runner_k = function RPlain -> "p" | RArgs _ -> "a"
+let dump_of benches groups =
+  let bl = List.map (fun b -> "B," ^ meta_s b.b_meta ^ "," ^ runner_k b.b_runner) benches in
+  let gl = List.map (fun g ->
+      let shape = match g.g_generic with
+        | None -> "-"
+        | Some rows -> "@" ^ String.concat "+" (List.map (fun row ->
+            String.concat "." (List.map (fun e ->
+                (match e.ge_kind with GType _ -> "t" | GConst (Some _, _) -> "tc" | GConst (None, _) -> "c") ^ runner_k e.ge_runner) row)) rows) in
+      "G," ^ meta_s g.g_meta ^ "," ^ shape) groups in
+  String.concat ";" (List.sort compare (bl @ gl))
+
 let model_run (line : string) : string =
   let (c, benches, groups) = parse_case line in
-  let made = made_of benches groups in
+  let real = is_real line in
+  let made = made_of ~real benches groups in
   let run cfg a = run_action cfg ident a benches groups in
   let cfg0 = mk_cfg c c.pos c.exact in
   let sections = ref [] in
   String.iter (fun act ->
     let sec = match act with
-      | 'T' -> canon_terse (run cfg0 ListTerse)
+      | 'T' ->
+        if real then begin
+          (* constructor order is not fixed: the lines are compared as a multiset *)
+          let (acts, p) = run cfg0 ListTerse in
+          String.concat ";" (List.sort compare (List.map (fun l -> enc (ts l)) (lines acts))) ^ "!" ^ status p
+        end else canon_terse (run cfg0 ListTerse)
+      | 'D' -> dump_of benches groups
       | 'R' | 'Q' -> canon_tree (run cfg0 Test) true made
       | 'L' | 'A' -> canon_tree (run cfg0 List) false made
       | 'E' ->
